@@ -96,10 +96,10 @@ PROPS = {
         "note": "chains' exponents from C17's kernel facts",
     },
     "C16": {
-        "modules": ["PP.Props.C16", "PP.Props.C16Inst"], "level": "proof", "technique": "Lean 4 proof (homogeneous Horner evaluation, polynomial identity of degree 63 / 15 checked in the kernel on extracted coefficients) + differential correspondence; additivity tested",
-        "text": "evalIso = the rational map XN/XD, y*YN/YD on every representative, identity and kernel points to identity, image on the target curve (polynomial identity on the extracted coefficients), compatible with negation, representation independent. The homomorphism law is NOT proved (no general theorem in Mathlib; degree 11 certificate infeasible) — tested against the a != 0 group law of E'." + DIFF,
-        "note": "partial: additivity of the isogenies is test-only",
-        "partial": ["homomorphism law (test only)"],
+        "modules": ["PP.Props.C16", "PP.Props.C16Inst", "PP.Props.C16Hom"], "level": "proof", "technique": "Lean 4 proof (homogeneous Horner evaluation, polynomial identity of degree 63 / 15 checked in the kernel on extracted coefficients, homomorphism law of the 3-isogeny by abscissa identities + oddness + absence of 2-torsion) + differential correspondence; additivity of the 11-isogeny tested",
+        "text": "evalIso = the rational map XN/XD, y*YN/YD on every representative, identity and kernel points to identity, image on the target curve (polynomial identity on the extracted coefficients), compatible with negation, representation independent. Homomorphism law: PROVED for the 3-isogeny of G2 (PP.Props.C16Hom.iso3_hom: for all points P, Q of E2'(Fq2), identity, opposite points and doubling included, iso3(P+Q) = iso3(P) + iso3(Q) with Mathlib's group laws on both curves; iso3 is an injective additive map; at model level Jac.abs(iso3 r) = Jac.abs(iso3 p) + Jac.abs(iso3 q) whenever r represents p + q; the kernel has no rational point, so no exceptional case survives). For the 11-isogeny of G1 it is NOT proved (its kernel is rational, the chord identity has degree > 70; no general theorem in Mathlib) — tested against the a != 0 group law of E1' incl. kernel translates." + DIFF,
+        "note": "partial: additivity of the 11-isogeny (G1) is test-only; the 3-isogeny (G2) is proved",
+        "partial": ["homomorphism law of the G1 11-isogeny (test only)"],
     },
     "C17": {
         "modules": ["PP.Props.C17", "PP.Props.C17Inst", "PP.Props.CurveOrder"], "level": "proof", "technique": "Lean 4 proof (straight-line program simulation, exponents of the extracted chains in the kernel, curve group orders and exponent) + differential correspondence on full-curve points",
